@@ -1,0 +1,115 @@
+//go:build verif
+
+// Verification harness for property C07 (message body round trips), read by /verif/govc. Only built with the tag
+// "verif": it is never part of the library. rt<T> encodes a value and parses the bytes back into a zero value;
+// tr<T> parses bytes and re-encodes the result; the contracts in zz_verif_contracts.go state that each round trip
+// is the identity.
+package model
+
+import "github.com/cuteLittleDevil/go-jt808/protocol/jt808"
+
+func verifMsg(body []byte) *jt808.JTMessage {
+	return &jt808.JTMessage{Header: &jt808.Header{Property: &jt808.BodyProperty{}}, Body: body}
+}
+
+func rtP0x8001(x *P0x8001) (y P0x8001, err error) { err = y.Parse(verifMsg(x.Encode())); return }
+
+func trP0x8001(b []byte) (out []byte, err error) {
+	var y P0x8001
+	if err = y.Parse(verifMsg(b)); err == nil {
+		out = y.Encode()
+	}
+	return
+}
+
+func rtP0x8801(x *P0x8801) (y P0x8801, err error) { err = y.Parse(verifMsg(x.Encode())); return }
+
+func trP0x8801(b []byte) (out []byte, err error) {
+	var y P0x8801
+	if err = y.Parse(verifMsg(b)); err == nil {
+		out = y.Encode()
+	}
+	return
+}
+
+func rtP0x9102(x *P0x9102) (y P0x9102, err error) { err = y.Parse(verifMsg(x.Encode())); return }
+
+func trP0x9102(b []byte) (out []byte, err error) {
+	var y P0x9102
+	if err = y.Parse(verifMsg(b)); err == nil {
+		out = y.Encode()
+	}
+	return
+}
+
+func rtP0x9105(x *P0x9105) (y P0x9105, err error) { err = y.Parse(verifMsg(x.Encode())); return }
+
+func trP0x9105(b []byte) (out []byte, err error) {
+	var y P0x9105
+	if err = y.Parse(verifMsg(b)); err == nil {
+		out = y.Encode()
+	}
+	return
+}
+
+func rtP0x9207(x *P0x9207) (y P0x9207, err error) { err = y.Parse(verifMsg(x.Encode())); return }
+
+func trP0x9207(b []byte) (out []byte, err error) {
+	var y P0x9207
+	if err = y.Parse(verifMsg(b)); err == nil {
+		out = y.Encode()
+	}
+	return
+}
+
+func rtT0x0001(x *T0x0001) (y T0x0001, err error) { err = y.Parse(verifMsg(x.Encode())); return }
+
+func trT0x0001(b []byte) (out []byte, err error) {
+	var y T0x0001
+	if err = y.Parse(verifMsg(b)); err == nil {
+		out = y.Encode()
+	}
+	return
+}
+
+func rtT0x0800(x *T0x0800) (y T0x0800, err error) { err = y.Parse(verifMsg(x.Encode())); return }
+
+func trT0x0800(b []byte) (out []byte, err error) {
+	var y T0x0800
+	if err = y.Parse(verifMsg(b)); err == nil {
+		out = y.Encode()
+	}
+	return
+}
+
+func rtT0x1003(x *T0x1003) (y T0x1003, err error) { err = y.Parse(verifMsg(x.Encode())); return }
+
+func trT0x1003(b []byte) (out []byte, err error) {
+	var y T0x1003
+	if err = y.Parse(verifMsg(b)); err == nil {
+		out = y.Encode()
+	}
+	return
+}
+
+func rtT0x1206(x *T0x1206) (y T0x1206, err error) { err = y.Parse(verifMsg(x.Encode())); return }
+
+func trT0x1206(b []byte) (out []byte, err error) {
+	var y T0x1206
+	if err = y.Parse(verifMsg(b)); err == nil {
+		out = y.Encode()
+	}
+	return
+}
+
+func rtP0x8100(x *P0x8100) (y P0x8100, err error) { err = y.Parse(verifMsg(x.Encode())); return }
+
+func rtT0x1211(x *T0x1211) (y T0x1211, err error) { err = y.Parse(verifMsg(x.Encode())); return }
+
+func trT0x0102(b []byte) (out []byte, err error) {
+	var y T0x0102
+	if err = y.Parse(verifMsg(b)); err == nil {
+		out = y.Encode()
+	}
+	return
+}
